@@ -114,11 +114,15 @@ impl HttpPrinter {
             BodyStrategy::Streaming(reader, cl) => {
                 let mut bw = BufWriter::new(writer);
                 bw.write_all(&head)?;
+                // the head (and its Date) goes out now, not after the body source delivers
+                bw.flush()?;
                 write_streaming(&mut bw, reader, cl)
             }
             BodyStrategy::Chunked { reader } => {
                 let mut bw = BufWriter::new(writer);
                 bw.write_all(&head)?;
+                // the head (and its Date) goes out now, not after the body source delivers
+                bw.flush()?;
                 write_chunked(bw, reader)
             }
             BodyStrategy::AutoChunked { prefix, reader } => {
@@ -146,11 +150,15 @@ impl HttpPrinter {
             BodyStrategy::Streaming(reader, cl) => {
                 let mut bw = BufWriter::new(writer);
                 bw.write_all(&head)?;
+                // the head (and its Date) goes out now, not after the body source delivers
+                bw.flush()?;
                 write_streaming(&mut bw, reader, cl)
             }
             BodyStrategy::Chunked { reader } => {
                 let mut bw = BufWriter::new(writer);
                 bw.write_all(&head)?;
+                // the head (and its Date) goes out now, not after the body source delivers
+                bw.flush()?;
                 write_chunked(bw, reader)
             }
             BodyStrategy::AutoChunked { prefix, reader } => {
